@@ -89,7 +89,7 @@ func OracleC27(r *Result) []Viol {
 		}
 	}
 	for _, v := range r.Viol {
-		if v.Sig == "conn-shared" || strings.HasPrefix(v.Sig, "close-panics") {
+		if v.Sig == "conn-shared" || v.Sig == "double-dead" || strings.HasPrefix(v.Sig, "close-panics") {
 			vs = append(vs, v)
 		}
 	}
